@@ -15,6 +15,8 @@ the hand-assembled sum.
  S5  solveMatrixPDE: one solver call with the given (M, RHS); new variable holding the reshaped solution
  S6  every term builder emits rows for interior cells only (ghost rows empty); boundary rows are disjoint from them (C03.B9)
  S7  a variable returned by solveExplicitPDE can be passed to solvePDE (cached boundary term available)
+ S8  "the variable's boundary equations" are the current ones: after `BCs.<face>.c = new` on any single face, the
+     boundary row handed to the solver carries the new datum (exercises the real dirty-flag properties; see also C09)
 """
 from __future__ import annotations
 from ..alg import Rat, atom_id, is_zero, fmt_rat
@@ -28,7 +30,7 @@ from .c12 import flat_vector
 PROP = 'C04'
 RULES = {'S1': 'cached boundary system and terms untouched', 'S2': 'solver system == boundary system + each term once', 'S3': 'one solver call, same system for both solvers',
          'S4': 'result reshaped (C order), stored in place, ghosts re-imposed, same object returned', 'S5': 'solveMatrixPDE', 'S6': 'term rows are interior rows only',
-         'S7': 'explicit-solver result usable by solvePDE'}
+         'S7': 'explicit-solver result usable by solvePDE', 'S8': 'boundary data edited after construction are the ones solved with (every face)'}
 ASSUMPTIONS = ['spsolve / the external solver return the solution of M x = RHS (direct-solver accuracy not decided)',
                'scipy sparse `+=` rebinds, ndarray `+=` writes in place (kind lattice of the interpreter)',
                'linearity in sources / boundary data / previous values is the corollary of S1-S4']
@@ -207,6 +209,26 @@ def job(args):
                 if not is_zero(wq.vector_at(r, G)):
                     bad.append(F.cstr(G))
         ob('S6', f"{module}.{impl}", not bad, f"entries in ghost rows {bad}" if bad else f"no entries in the {len(ghosts)} ghost-row classes", fi.loc())
+    # ---- S8: boundary data edited after construction reach the solver, face by face (through the real flag properties)
+    from ..model import FACES
+    from ..alg import atom_key
+    ws8 = World(sm, cls)
+    cells8, ghosts8 = _cells(ws8, tier)
+    Mt8 = ws8.call('source', 'linearSourceTerm', ws8.cell_variable('beta'))
+    for fi_, face in enumerate(FACES[:2 * ws8.dim]):
+        bc8 = ws8.boundary_conditions()
+        v8 = ws8.interp.instantiate('CellVariable', [ws8.mesh, Rat.atom(('init',)), bc8])
+        ws8.interp.set_attr(bc8.attrs[face], 'c', Rat.atom(('cnew',)), None)
+        rec8 = []
+        ext8 = PyCallable(lambda a, k: (rec8.append(a), Box(flat_vector(ws8, 'sol')))[1])
+        try:
+            ws8.call('pdesolver', 'solvePDE', v8, [Mt8], ext8)
+            G = ghosts8[fi_]
+            r8 = ws8.vector_at(rec8[0][1], G)
+            seen = any(isinstance(atom_key(a), tuple) and atom_key(a)[0] == 'cnew' for a in r8.atoms())
+            ob('S8', f"pdesolver.solvePDE/edited-BC/face={face}", seen, f"RHS of the boundary row {F.cstr(G)} handed to the solver after `BCs.{face}.c = cnew`: {fmt_rat(r8, 5)}")
+        except AbstractRaise as e:
+            ob('S8', f"pdesolver.solvePDE/edited-BC/face={face}", False, f"raises {e.exc}: {e.msg}")
     # ---- S7
     we, phie, Te, rece = make_solve_world(sm, cls)
     fe = sm.func('pdesolver', 'solveExplicitPDE')
